@@ -36,6 +36,19 @@ def end_filter(R, f, rule):
         R.check(p is None, rule, "%s:%s" % (f.qualname, q.stmt_key(c)), R.site(f, c),
                 "`%s` is appended only when it is not END_OF_GENERATOR" % v,
                 "END_OF_GENERATOR can end up in the result of %s" % f.name, cfg.fmt_path(p) if p else None)
+        # the marker is skipped, it does not end the collection: a generator that relays other generators, or a chain of two, produces
+        # it in the middle of the stream
+        loops_ = [x for x in q.scope_nodes(f.node) if isinstance(x, ast.For)]
+        if loops_:
+            head_ = kit.one(cfg.nodes_for(loops_[0]), "loop header")
+            for t_ in [x for x in cfg.nodes if not_end(x) is not None]:
+                end_edge = "T" if not_end(t_) == "F" else "F"
+                starts_ = [e.dst for e in cfg.out_edges(t_.id, N) if e.label == end_edge]
+                p_ = cfg.find_path(starts_, [cfg.exit], N, cut_nodes=[head_])
+                R.check(p_ is None, rule, "%s:skip" % f.qualname, R.site(f, t_.ast),
+                        "after END_OF_GENERATOR the loop goes on with the next task",
+                        "END_OF_GENERATOR ends the loop of %s: Values delivered after a marker in the middle of the stream are lost" % f.name,
+                        cfg.fmt_path(p_) if p_ else None)
         # the appended value is the result of yielding the task of this iteration
         vals = common.assigned_values(f.node, v) if v else []
         oky = bool(vals) and all(k == "expr" and isinstance(e, ast.Yield) for k, e in vals)
@@ -255,6 +268,9 @@ def run(R):
     # a memo keyed by the payload would hand back an equal object produced earlier - 1.0 for True, another generator's row)
     scfg_ = cfg_of(send)
     vtests = [n for n in scfg_.nodes if n.kind == "test" and q.atom_test(n.ast)[0] == "isinstance" and q.atom_test(n.ast)[1][1].split(".")[-1] == "Value"]
+    R.check(bool(vtests), "C17.VALUE-FLOW", send.qualname + ":kind", R.site(send),
+            "send() recognises a ready Value by isinstance(x, Value); everything else the body yields is awaited",
+            "send() no longer decides by isinstance(x, Value): a body that awaits a tuple/list/dict of futures or None is treated as having produced a Value")
     for t in vtests:
         k_, s_, pos_ = q.atom_test(t.ast)
         fv = s_[0]
